@@ -201,7 +201,7 @@ def entry_points(ctx: Ctx) -> List[FuncInfo]:
 
 
 def check(ctx: Ctx, rep: Report):
-    rep.rule("C18.R1", "no read-only entry point can reach the construction or use of a write / unknown command over the call graph", 29)
+    rep.rule("C18.R1", "no read-only entry point can reach the construction or use of a write / unknown command over the call graph; the command factories build what their name says", 38)
     rep.rule("C18.R2", "setter guards dominate every write-reaching call; documented rejections raise ValueError before any request", 9)
     rep.rule("C18.R3", "an unknown setting id raises ValueError without building a request", 3)
     prog, res = ctx.prog, ctx.res
@@ -225,6 +225,7 @@ def check(ctx: Ctx, rep: Report):
             chain_ = _call_chain_to(res, ep, g)
             rep.violation("C18.R1", "readonly:%s->%s:%s" % (ep.short, g.short, norm(node)[:50]), g.loc(node),
                           "read-only call %s can reach a %s command (%s at %s in %s) via %s" % (ep.short, kind, why, g.loc(node), g.short, " -> ".join(chain_)))
+    factories(ctx, rep, wire)
     # positive control
     for fam in ("ET", "DT", "ES"):
         ci = prog.cls(fam)
@@ -234,6 +235,51 @@ def check(ctx: Ctx, rep: Report):
                 raise AnalysisError("positive control failed: %s.%s does not reach a write according to the classification" % (fam, n))
     r2(ctx, rep, wire)
     r3(ctx, rep, wire)
+
+
+def factories(ctx: Ctx, rep: Report, wire: Wire):
+    """The classification above trusts the names _read_command / read_command ...: each of these factories must hand
+    back exactly the object one call of the matching constructor (or of the protocol's matching factory) builds - not,
+    e.g., an object looked up in a cache that a write factory may have filled."""
+    from ..astutil import inlined_body, alternatives, single_assignments
+    prog, res = ctx.prog, ctx.res
+    want = {"_read_command": "read_command", "_write_command": "write_command", "_write_multi_command": "write_multi_command"}
+    inv = prog.cls("Inverter")
+
+    def returns_of(fn):
+        body = inlined_body(res, fn)
+        fake = ast.Module(body=body, type_ignores=[])
+        local = single_assignments(fake)
+        out = []
+        for st in body:
+            for n in ast.walk(st):
+                if isinstance(n, ast.Return):
+                    out.extend(alternatives(n.value, local) if n.value is not None else [None])
+        return out
+
+    for name, target in want.items():
+        fn = inv.methods.get(name)
+        if fn is None:
+            raise AnalysisError("Inverter.%s not found" % name)
+        rets = returns_of(fn)
+        ok = bool(rets) and all(isinstance(v, ast.Call) and call_chain(v) == ("self", "_protocol", target)
+                                and [norm(a) for a in v.args] == fn.params[1:] and not v.keywords for v in rets)
+        rep.check(ok, "C18.R1", "factory:Inverter.%s" % name, fn.loc(), "Inverter.%s returns self._protocol.%s(<its arguments>)" % (name, target),
+                  bad="Inverter.%s does not simply return self._protocol.%s(%s) (returns %s): the command a caller gets is not determined by the factory it called" % (
+                      name, target, ", ".join(fn.params[1:]), "; ".join(norm(v)[:60] if v is not None else "None" for v in rets)))
+    base = prog.cls("InverterProtocol")
+    kinds = {"read_command": "read", "write_command": "write", "write_multi_command": "write"}
+    for ci in prog.all_subclasses(base, include_self=False):
+        for name, kind in kinds.items():
+            fn = ci.methods.get(name)
+            if fn is None:
+                continue
+            rets = returns_of(fn)
+            ks = [wire.site_kind(fn, v) if isinstance(v, ast.Call) else None for v in rets]
+            ok = bool(rets) and all(k is not None and k[0] == kind for k in ks) and all(res.resolve_call(v, fn).ctor is not None for v in rets)
+            rep.check(ok, "C18.R1", "factory:%s.%s" % (ci.name, name), fn.loc(), "%s.%s constructs a %s command" % (ci.name, name, kind),
+                      bad="%s.%s does not return a freshly constructed %s command (returns %s)" % (
+                          ci.name, name, kind, "; ".join(norm(v)[:60] if v is not None else "None" for v in rets)))
 
 
 def _call_chain_to(res, src: FuncInfo, dst: FuncInfo) -> List[str]:
